@@ -299,18 +299,26 @@ func (e *Engine) afterStep() error {
 	if err := e.observe(); err != nil {
 		return err
 	}
-	full := e.Or.CmpEvery > 0 && (e.step+1)%e.Or.CmpEvery == 0
+	// full comparison every CmpEvery steps; for large states the interval grows with the size so that
+	// a history costs O(ops + size) comparisons instead of O(ops x size) (per-op results are always compared)
+	k := e.Or.CmpEvery
+	if k > 0 {
+		k *= 1 + e.modelSize()/3000
+	}
+	full := k > 0 && (e.step+1)%k == 0
 	if full {
 		if err := e.CompareAll(); err != nil {
 			return err
 		}
 	}
-	if e.Or.Verify {
+	// whole-state structural oracles: every step on small states, every (1+size/1500)-th step on large ones
+	due := (e.step+1)%(1+e.modelSize()/1500) == 0
+	if e.Or.Verify && due {
 		if err := e.VerifyAll(); err != nil {
 			return err
 		}
 	}
-	if e.Or.Tree || e.Or.Sizes || e.Or.Health || e.Or.Inline || e.Or.RoundTrip {
+	if (e.Or.Tree || e.Or.Sizes || e.Or.Health || e.Or.Inline || e.Or.RoundTrip) && due {
 		if err := e.checkStructure(); err != nil {
 			return err
 		}
@@ -341,6 +349,11 @@ func (e *Engine) Finish() error {
 	}
 	if e.Or.Verify {
 		if err := e.VerifyAll(); err != nil {
+			return err
+		}
+	}
+	if e.Or.Tree || e.Or.Sizes || e.Or.Health || e.Or.Inline || e.Or.RoundTrip {
+		if err := e.checkStructure(); err != nil {
 			return err
 		}
 	}
@@ -477,4 +490,13 @@ func (e *Engine) emptyEverything() error {
 	}
 	e.Stats.label("emptied_all")
 	return nil
+}
+
+
+func (e *Engine) modelSize() int {
+	n := 0
+	for _, r := range e.Roots {
+		n += r.Count()
+	}
+	return n
 }
